@@ -14,6 +14,7 @@ import (
 	"fmt"
 	"testing"
 
+	asv1 "github.com/pingcap/advanced-statefulset/client/apis/apps/v1"
 	asfake "github.com/pingcap/advanced-statefulset/client/client/clientset/versioned/fake"
 	appsv1 "k8s.io/api/apps/v1"
 	apierrors "k8s.io/apimachinery/pkg/api/errors"
@@ -57,6 +58,8 @@ func upJudge(c *upCase) string {
 			return ""
 		}
 		ex.Spec.ServiceName = "old"
+		ex.Status.ReadyReplicas = 0 // left behind by an earlier, interrupted run: the status was never written
+		ex.Status.CurrentRevision = ""
 		asc = asfake.NewSimpleClientset(ex)
 	} else {
 		asc = asfake.NewSimpleClientset()
@@ -174,6 +177,16 @@ func upJudge(c *upCase) string {
 		}
 	}
 	for _, a := range asc.Actions() {
+		if ua, ok := a.(core.UpdateAction); ok && a.GetVerb() == "update" && a.GetSubresource() == "status" {
+			if w, ok := ua.GetObject().(interface{ GetName() string }); ok && w != nil {
+				if b, err := ToBuiltinStatefulSet(ua.GetObject().(*asv1.StatefulSet)); err == nil {
+					if b.Status.ReadyReplicas != sts.Status.ReadyReplicas || b.Status.Replicas != sts.Status.Replicas || b.Status.CurrentRevision != sts.Status.CurrentRevision {
+						return fmt.Sprintf("the status written to the Advanced StatefulSet (replicas=%d ready=%d current=%q) is not the built-in one's (replicas=%d ready=%d current=%q)",
+							b.Status.Replicas, b.Status.ReadyReplicas, b.Status.CurrentRevision, sts.Status.Replicas, sts.Status.ReadyReplicas, sts.Status.CurrentRevision)
+					}
+				}
+			}
+		}
 		if ca, ok := a.(core.CreateAction); ok && a.GetVerb() == "create" {
 			if m, ok := ca.GetObject().(metav1.Object); ok && m.GetResourceVersion() != "" {
 				return "create carries a resource version"
